@@ -496,7 +496,8 @@ func (p *parser) parseNodeTest(n node, axeTyp string, matchType NodeType) (opnd 
 			prefix := p.r.prefix
 			name := p.r.name
 			p.next()
-			if p.r.name == "*" {
+			if name == "*" {
+				// NCName:*
 				name = ""
 			}
 			opnd = newAxisNode(axeTyp, matchType, name, prefix, "", n, func(a *axisNode) {
